@@ -31,6 +31,21 @@ use crate::{
 };
 
 type TapLog = Rc<RefCell<Vec<Vec<Value>>>>;
+/// Late stacking: poll a purely dynamic adapter (whose limit was just announced) until it is Pending,
+/// discarding what it emits, before it is used as the observer of the next stage.
+fn settle<A: Stream + Unpin>(mut a: A, late: bool) -> A {
+    if late {
+        let w = std::task::Waker::from(Flag::new());
+        let mut cx = std::task::Context::from_waker(&w);
+        let mut n = 0;
+        while let std::task::Poll::Ready(Some(_)) = Pin::new(&mut a).poll_next(&mut cx) {
+            n += 1;
+            assert!(n < 10_000, "harness: late-stacked adapter never settles");
+        }
+    }
+    a
+}
+
 type Limits = BTreeMap<i64, Observable<usize>>;
 
 #[derive(Clone, Debug)]
@@ -157,17 +172,23 @@ macro_rules! impl_chain {
                 while i < chain.len() {
                     let st = &chain[i];
                     let idx = i + 1;
-                    if st.selfobs && st.mode == "dyn" && i + 1 < chain.len() {
+                    if st.selfobs && (st.mode == "dyn" || st.mode == "dyninit") && i + 1 < chain.len() {
                         // the adapter itself is the observer of the next stage: no tap in between
                         let key = idx as i64;
                         let l = limit_stream(limits, key, 0);
                         let nxt = &chain[i + 1];
                         while inits.len() <= idx { inits.push(Value::Null); }
                         inits[idx] = Value::Null;
+                        // mode "dyninit" + self: late stacking. The purely dynamic adapter is first polled with
+                        // its limit p announced (its own output goes nowhere), and only then handed over.
+                        let late = st.mode == "dyninit";
+                        if late {
+                            Observable::set(limits.get_mut(&key).expect("limit just inserted"), st.p);
+                        }
                         cur = match st.kind.as_str() {
-                            "head" => one_stage_noself(cur.dynamic_head(l), nxt, idx + 1, log, limits, inits),
-                            "tail" => one_stage_noself(cur.dynamic_tail(l), nxt, idx + 1, log, limits, inits),
-                            "skip" => one_stage_noself(cur.dynamic_skip(l), nxt, idx + 1, log, limits, inits),
+                            "head" => one_stage_noself(settle(cur.dynamic_head(l), late), nxt, idx + 1, log, limits, inits),
+                            "tail" => one_stage_noself(settle(cur.dynamic_tail(l), late), nxt, idx + 1, log, limits, inits),
+                            "skip" => one_stage_noself(settle(cur.dynamic_skip(l), late), nxt, idx + 1, log, limits, inits),
                             k => panic!("harness: stage {k} cannot be its own observer"),
                         };
                         i += 2;
